@@ -150,28 +150,27 @@ def run_model_compare(cases, recs, shard=None, timeout=1500):
         return codes, errors
     if shard is None:
         shard = max(15, min(150, -(-len(cases) // common.NPROC)))
-    files = []
-    for s in range(0, len(cases), shard):
-        files.append(("cases_%d" % (s // shard), cases_v(cases[s:s + shard], [r["dig"] for r in recs[s:s + shard]])))
-    codes, errors = [], []
-    for (name, ok, out), s in zip(common.coq_eval_many(files, timeout=timeout), range(0, len(cases), shard)):
-        k = min(shard, len(cases) - s)
+    # shards are interleaved (case i goes to shard i mod nsh): expensive programs generated next to each other are spread
+    # over the worker processes instead of landing in one file
+    nsh = max(1, -(-len(cases) // shard))
+    idx = [list(range(k, len(cases), nsh)) for k in range(nsh)]
+    files = [("cases_%d" % k, cases_v([cases[i] for i in ix], [recs[i]["dig"] for i in ix])) for k, ix in enumerate(idx)]
+    codes, errors = [None] * len(cases), []
+    for (name, ok, out), ix in zip(common.coq_eval_many(files, timeout=timeout), idx):
+        k = len(ix)
         if not ok:
             errors.append("%s: %s" % (name, out[-600:]))
-            codes += [None] * k
             continue
         flat = " ".join(out.split())
         m = re.search(r"= \[([^\]]*)\] : list Z", flat)
         if not m:
             errors.append("%s: unreadable output %s" % (name, out[-300:]))
-            codes += [None] * k
             continue
         vals = [int(x.strip().strip("()")) for x in m.group(1).split(";") if x.strip()]
         if len(vals) != k:
             errors.append("%s: %d results for %d cases" % (name, len(vals), k))
-            codes += [None] * k
             continue
-        codes += vals
+        for i, v in zip(ix, vals): codes[i] = v
     return codes, errors
 
 
